@@ -139,3 +139,23 @@ Fixpoint fd_loop_orig (fuel : nat) (cur dom : bytes) : Cres bool :=
 
 Definition finddomain_orig (buf domain : bytes) : Cres bool :=
   fd_loop_orig (S (length buf)) buf (cstr domain).
+
+(** -------- lib/match.c:matchdomain(domain, dl, expr): entries of lists that were loaded
+    with loadlistfd (both arguments are C strings; dl = strlen(domain) at every call site).
+    strcasecmp == 0 on two C strings: compare tolower() byte by byte up to the terminators. *)
+Fixpoint strcasecmp_eq (a b : bytes) : bool :=
+  match a, b with
+  | [], [] => true
+  | x :: a', y :: b' => if N.eqb (to_lower x) (to_lower y) then strcasecmp_eq a' b' else false
+  | _, _ => false
+  end.
+
+Definition matchdomain (domain expr : bytes) : bool :=
+  let dom := cstr domain in
+  let ex := cstr expr in
+  let dl := length dom in
+  let el := length ex in
+  if Nat.ltb dl el then false
+  else if N.eqb (hd 0%N ex) MD_DOT then strcasecmp_eq (skipn (dl - el) dom) ex
+  else if Nat.eqb el dl then strcasecmp_eq dom ex
+  else false.
